@@ -16,6 +16,10 @@ def run(tier, seed, replay=None):
     symmod = pyload.module("digital_rf_hdf5")
     bounds_common.merge_bounds(ck, symmod, 4 if tier == "thorough" else 3)
     bounds_common.dir_bounds(ck, symmod, 3)
+    from checks import reader_common
+    reader_common.reader_init_merge(ck, pyload.module("digital_rf_hdf5", symbolic=False))
+    reader_common.wiring(ck, symmod, ndirs=3)
+    ck.replayers["reader."] = replay_sessions
     ck.replayers["bounds."] = replay_sessions
     ck.replayers["session."] = replay_sessions
     ck.replayers["fs."] = replay_sessions
